@@ -43,6 +43,16 @@ pub fn variants() -> Vec<(f64, f64, usize, Option<f64>)> {
 
 /// one scalar scripted step: call j answered with vals[j] (0 beyond); returns (accepted_at_full_h, calls)
 fn scripted_scalar_step(m: Method, vals: &[f64], atol: f64) -> Result<bool, String> {
+    // both signs of h: the estimator must behave the same for a backward step
+    let fwd = scripted_scalar_step_dir(m, vals, atol, 1.0)?;
+    let bwd = scripted_scalar_step_dir(m, vals, atol, -1.0)?;
+    if fwd != bwd {
+        return Err(format!("the step is {} forward but {} backward", if fwd { "accepted" } else { "rejected" }, if bwd { "accepted" } else { "rejected" }));
+    }
+    Ok(fwd)
+}
+
+fn scripted_scalar_step_dir(m: Method, vals: &[f64], atol: f64, dir: f64) -> Result<bool, String> {
     let v = vals.to_vec();
     let f = Scripted {
         n: 1,
@@ -51,9 +61,9 @@ fn scripted_scalar_step(m: Method, vals: &[f64], atol: f64) -> Result<bool, Stri
         }),
         calls: RefCell::new(Vec::new()),
     };
-    let lo = LowOpts { first_step: Some(1.0), dense: false, ..Default::default() };
+    let lo = LowOpts { first_step: Some(dir), dense: false, ..Default::default() };
     let mut rec = Rec { f: &f, thetas: vec![], steps: Vec::new() };
-    run_low(m, &f, 0.0, &[0.0], 1.0, &Tol::S(0.0), &Tol::S(atol), &lo, &mut rec)?;
+    run_low(m, &f, 0.0, &[0.0], dir, &Tol::S(0.0), &Tol::S(atol), &lo, &mut rec)?;
     if rec.steps.len() < 2 {
         return Err("no step was completed".into());
     }
@@ -63,7 +73,7 @@ fn scripted_scalar_step(m: Method, vals: &[f64], atol: f64) -> Result<bool, Stri
         Method::DOP853 => 12,
         _ => 0,
     };
-    Ok(rec.steps[1].x == 1.0 && rec.steps[1].calls_at_entry == 1 + per_nodense)
+    Ok(rec.steps[1].x == dir && rec.steps[1].calls_at_entry == 1 + per_nodense)
 }
 
 /// Is the first step of size h from exact data accepted with absolute tolerance atol (rtol = 0)?
